@@ -73,6 +73,14 @@ func main() {
 		}
 		os.Exit(1)
 	}
+	// watchdog: an analysis that does not terminate must not pass silently
+	time.AfterFunc(20*time.Minute, func() {
+		for _, id := range ids {
+			fmt.Printf("UNDECIDED %s watchdog — analysis did not terminate within 20 minutes\n", id)
+			fmt.Printf("VIOLATION property=%s replay=%s\n", id, "bin/verifcheck -prop "+id)
+		}
+		os.Exit(1)
+	})
 	exit := 0
 	for _, id := range ids {
 		if code := runOne(p, id, *tier, seed, *verif, *repo, started); code > exit {
